@@ -290,6 +290,8 @@ def views(sink, ih, rows, rp, area):
     ok &= bool(seq('iloc', lambda: [ih.iloc[i] for i in range(n)], rows))
     ok &= bool(seq('positions', lambda: ih.positions, list(range(n))))
     ok &= bool(seq('iter_label', lambda: list(ih.iter_label()), rows))
+    ok &= bool(seq('levels-values', lambda: ih._levels.values, rows, lambda v: [tuple(r) for r in v]))
+    ok &= bool(seq('levels-iter', lambda: list(ih._levels), rows))
     for d in range(depth):
         def widths(d=d):
             out = []
@@ -617,6 +619,10 @@ def go_variants(rows):
     blocks = outer_blocks(rows)
     if len(blocks) >= 2:
         out.append(('extend-blocks', blocks[0], [('extend', b) for b in blocks[1:]]))
+    if len(blocks) >= 3:
+        out.append(('extend-rest-at-once', blocks[0], [('extend', [r for b in blocks[1:] for r in b])]))
+        out.append(('extend-two-then-one', blocks[0] + blocks[1], [('extend', blocks[2])]))
+    if len(blocks) >= 2:
         ops = [('extend', blocks[1])]
         if len(blocks) == 3:
             ops += [('append', r) for r in blocks[2]]
@@ -713,8 +719,10 @@ def eval_tree(rep, case, tier, only=None):
             continue
         check_whole_key(rep, ih, model, rp)
         ri = applicable.index(route)
-        stride = 1 if (route == 'from_labels' or tier != 'quick') else (3 if route in full_sel else 17)
+        stride = 1 if (route == 'from_labels' or tier != 'quick') else (5 if route in full_sel else 29)
         check_selectors(rep, rep, ih, model, pattern, rp, tier, containers=True, stride=stride, offset=ri + salt)
+    if only is None or only.get('route') == 'non-tree-order':
+        eval_non_tree(rep, rows, pattern, base_rp)
     variants = go_variants(rows)
     full_go = salt % max(1, len(variants) * len(READS))
     vi = 0
@@ -732,8 +740,40 @@ def eval_tree(rep, case, tier, only=None):
             if not views(rep, g, rows, rp, 'go-views'):
                 continue
             check_whole_key(rep, g, rows, rp)
-            check_selectors(rep, rep, g, rows, pattern, rp, tier, containers=True, stride=1 if tier != 'quick' else (2 if mine else 17), offset=vi + salt)
+            check_selectors(rep, rep, g, rows, pattern, rp, tier, containers=True, stride=1 if tier != 'quick' else (3 if mine else 29), offset=vi + salt)
     eval_invalid_appends(rep, rows, pattern, base_rp, only)
+
+
+def eval_non_tree(rep, rows, pattern, base_rp):
+    """a label order that is not a tree: the constructors either refuse it or present exactly the order given"""
+    import static_frame as sf
+    n = len(rows)
+    perm = None
+    for i in range(n - 2):
+        cand = list(range(n))
+        cand[i + 1], cand[i + 2] = cand[i + 2], cand[i + 1]
+        if not is_tree_order([rows[p] for p in cand]):
+            perm = cand
+            break
+    if perm is None:
+        return
+    bad = [rows[p] for p in perm]
+    names = ctor_names(pattern)
+    for go in (False, True):
+        cls = sf.IndexHierarchyGO if go else sf.IndexHierarchy
+        ic = ctor_objs(names, go)
+        kw = dict(index_constructors=ic) if ic else {}
+        for how, thunk in (('from_labels', lambda: cls.from_labels(list(bad), **kw)), ('iloc', lambda: cls.from_labels(list(rows), **kw).iloc[perm]),
+                           ('loc-list', lambda: cls.from_labels(list(rows), **kw).loc[list(bad)])):
+            rp = dict(base_rp, route='non-tree-order', how=how, go=go)
+            rep.count(distinct_key=('nontree', repr(sorted(rp.items(), key=str))))
+            o = obs(thunk)
+            if o[0] == 'exc':
+                continue  # refused (which exception: C02)
+            s = Sink()
+            views(s, o[1], bad, rp, 'views')
+            shown = obs(lambda: list(o[1]))
+            rep.check(not s.failures, f'{PID}:route:non-tree-order-accepted-and-rearranged', f'{how} given the non-tree order {bad!r} returned an index listing {shown[1]!r}', rp)
 
 
 def eval_invalid_appends(rep, rows, pattern, base_rp, only):
